@@ -3,3 +3,5 @@ import DadiVerif.Driver.Integ
 import DadiVerif.Props.C02
 import DadiVerif.Props.C03
 import DadiVerif.Props.C04
+import DadiVerif.Props.C09
+import DadiVerif.Driver.Fold
